@@ -61,6 +61,12 @@ class C18(Prop):
                     if (r.get("marker1") == "1" and not ok1) or (r.get("marker2") == "1" and not ok2):
                         out.append(viol(f"a call executed the file although its stat at THAT call was not root-controlled: {op} -> {g}",
                                         cops[:2] + [op], cgo[:2] + [g]))
+                elif op.startswith("ex.rel"):
+                    if r.get("bad") == "1":
+                        out.append(viol(f"a relative executable path was resolved differently for the permission check and for the start: a "
+                                        f"world-writable script of a non-root owner was executed: {op} -> {g}", cops[:2] + [op], cgo[:2] + [g]))
+                    if str(r.get("run", "")).startswith("panic"):
+                        out.append(viol(f"the call panicked: {op} -> {g}", cops[:2] + [op], cgo[:2] + [g]))
                 elif op.startswith("ex.busy"):
                     if r.get("marker") == "1":
                         out.append(viol(f"a file that had been handed to a non-root owner / made world-writable was executed (it was busy when the "
